@@ -17,6 +17,8 @@ CONSTANTS
     MaxReopens = 1
     MaxFmtFail = 0
     FmtFails = {}
+    SepForms = {"nl"}
+    WriterEnds = {"sep"}
     Ticks = {"same", "later", "next", "back"}
     RetryTicks = {"same", "next"}
     Phantoms = {0, 3}
